@@ -8,6 +8,7 @@ import (
 	"context"
 	"errors"
 	"fmt"
+	"strings"
 	"sync"
 	"testing"
 	"time"
@@ -383,3 +384,19 @@ func (l errorLog) ReportError(err error) { l.t.Log("conn reported error:", err) 
 
 // timeAfter returns a channel that fires after hangTimeout.
 func timeAfter() <-chan time.Time { return time.After(hangTimeout) }
+
+// stackFrames extracts from a debug.Stack() dump the frames (function line +
+// file:line line) whose function line contains one of the given substrings.
+func stackFrames(stack string, substrs ...string) string {
+	lines := strings.Split(stack, "\n")
+	var out []string
+	for i := 0; i+1 < len(lines); i++ {
+		for _, s := range substrs {
+			if strings.Contains(lines[i], s) {
+				out = append(out, lines[i], lines[i+1])
+				break
+			}
+		}
+	}
+	return strings.Join(out, "\n")
+}
